@@ -429,7 +429,8 @@ def run(ck):
     po = ck.impl([probe])[0].split("\t")
     rebind = len(po) == 6 and po[4] == "S" + enc_str("value SECRET here")
     if rebind:
-        if any(kf.get("class") == "on_error_rebind" for kf in ck.open_findings()):
+        if any(kf.get("class") == "on_error_rebind" or "on_error_rebind" in str(kf.get("id", "")) + str(kf.get("what", "")) + str(kf.get("description", ""))
+               for kf in ck.open_findings()):
             ck.known("error message re-expanded when reported to on_error (message containing ${v})")
     ck.coverage.update({
         "evaluations": len(cases),
